@@ -47,11 +47,15 @@ func runC11Short(c *ShortCase) *sim.Outcome {
 		if !m.asked {
 			return o.Fail("C11/honest-rejected", "an honest SMP1 whose %s has a zero top byte did not make otr3 ask for the secret (events %v)", c.Name, m.A.SMP[nEv:])
 		}
-		out, err := m.A.C.ProvideAuthenticationSecret(secA)
+		buf, reuse := sim.Lend(secA)
+		out, err := m.A.C.ProvideAuthenticationSecret(buf)
+		reuse()
 		m.fromA("ProvideAuthenticationSecret", nil, nil, out, err, m.A.Snap(), true)
 	} else {
 		m.R.AutoSecret = secR
-		out, err := m.A.C.StartAuthenticate("", secA)
+		buf, reuse := sim.Lend(secA)
+		out, err := m.A.C.StartAuthenticate("", buf)
+		reuse()
 		m.fromA("StartAuthenticate", nil, nil, out, err, m.A.Snap(), true)
 	}
 	m.Settle(nil, nil)
